@@ -57,4 +57,15 @@ EXTERNALS = {
     'VectorFunction2D.evaluate': _virtual('ref:Vector3D', 'raysect VectorFunction2D: pure function of its arguments'),
 }
 
+RATE = 'atomic-data rate object: evaluate() is a pure function of its arguments'
+for _cls in ('IonisationRate', 'RecombinationRate', 'ThermalCXRate', '_PECRate', 'ThermalCXPEC', 'BeamCXPEC', '_BeamRate',
+             'TotalRadiatedPower', '_RadiatedPower', 'FractionalAbundance', 'FreeFreeGauntFactor'):
+    EXTERNALS[_cls + '.evaluate'] = _virtual('real', RATE)
+EXTERNALS['AtomicData.*'] = {'kind': 'pure', 'result': 'auto', 'override': True, 'nonnull': True,
+                             'doc': 'atomic data provider: each accessor is a pure function of its arguments and returns an object (never None)'}
+EXTERNALS['Composition.get'] = {'kind': 'pure', 'result': 'ref:Species', 'override': True, 'raises': ['ValueError'],
+                                'doc': 'Composition.get(element, charge): the species registered for the key, ValueError if absent'}
+EXTERNALS['.__call__'] = {'kind': 'logged', 'result': 'ref', 'alloc': True, 'label': 'construct',
+                          'doc': 'calling a class object stored in an attribute constructs a fresh object (arguments logged)'}
+
 GLOBAL_ATTRS = {}
